@@ -557,7 +557,9 @@ class GetItem(Contract):
                    "spelling": "tuple", "indexing": "label", "tol": True}
         if tier == "quick":
             for kinds in (("array", "scalar", "mask"), ("slice", "array", "full"), ("scalar", "full", "array"),
-                          ("mask", "slice-rev", "scalar"), ("scalar", "scalar", "scalar")):
+                          ("mask", "slice-rev", "scalar"), ("scalar", "scalar", "scalar"),
+                          # a label SLICE between a scalar and an array index: NumPy would put the advanced dimension first
+                          ("scalar", "slice", "array"), ("scalar", "slice-rev", "mask")):
                 yield {"name": "r3-%s-label" % "+".join(kinds), "rank": 3, "kinds": list(kinds), "spelling": "tuple", "indexing": "label"}
 
     def bound_lengths(self, case):
@@ -867,6 +869,12 @@ class SetItem(Contract):
             for dk, vk in (("I", "f"), ("I", "i"), ("f", "i")):
                 yield {"name": "r%d-%s-cast-%s<-%s" % (len(kinds), "+".join(kinds), dk, vk), "rank": len(kinds), "kinds": kinds,
                        "spelling": "tuple", "indexing": "label", "value": "scalar", "inplace": True, "cast": True,
+                       "data_kind": dk, "value_kind": vk}
+        # cast=True together with inplace=False: whether or not the dtype has to widen, the operand must be left alone
+        for kinds in (["scalar"], ["mask"], ["full", "array"]):
+            for dk, vk in (("f", "f"), ("I", "i"), ("I", "f")):
+                yield {"name": "r%d-%s-cast-%s<-%s-copy" % (len(kinds), "+".join(kinds), dk, vk), "rank": len(kinds), "kinds": kinds,
+                       "spelling": "tuple", "indexing": "label", "value": "scalar", "inplace": False, "cast": True,
                        "data_kind": dk, "value_kind": vk}
         for rank in (2, 3) if tier != "quick" else (2,):
             yield {"name": "r%d-ndmask-scalar" % rank, "rank": rank, "kinds": ["ndmask"], "spelling": "ndmask", "indexing": "label",
